@@ -100,7 +100,7 @@ theorem failed_create_no_trace_partial (env : Env) (hrv : RevertRestoresObs env.
   | enter saved w' self' ro' exec =>
     simp only [h] at hfail hnot ⊢
     generalize run env (depth + 1) ro' self' w' [] [] init = r at hfail hnot ⊢
-    unfold createExit at hfail hnot ⊢
+    unfold createExit createStored at hfail hnot ⊢
     simp only at hfail hnot ⊢
     by_cases hmax : (r.ret == RetKind.huge) = true
     · simp only [hmax, Bool.true_or, ↓reduceIte]
